@@ -951,3 +951,7 @@ def run(rep: Report, prog: Program, tier: str) -> None:
         shared = HNS(name="dtls-shared", transport=HNS(name="ice-shared"))
         return ([_mk_transceiver("audio", "1", "audio", shared, True)], _sctp("0", transport=shared), ["1", "0"], "audio")
     _bundle_case("max-bundle, data channel created first: the primary shares its transport with the SCTP transport", _dc_first)
+
+    # ---------------------------------------------------------------- C03-SIM: whole exchanges through the negotiation simulator
+    from .pcnego import c03_sim
+    c03_sim(rep, prog, tier)
